@@ -389,11 +389,18 @@ def profile_key(prof, wrong=False):
     return sym_key(kid.encode('ascii'), k, alg, ops)
 
 
+def _as_list(extra):
+    if not extra:
+        return []
+    return list(extra) if isinstance(extra, (list, tuple)) else [extra]
+
+
 def make_source(prof, node_id=SRC_ID, tgt_types=(1,), ivs=(), extra=None):
     ''' The security source of a profile: keys + one policy entry covering ``tgt_types``.
-    ``extra`` = another profile whose policy is installed as well (e.g. BIB + BCB on the same bundle). '''
+    ``extra`` = another profile (or list of profiles) whose policy is installed as well (e.g. BIB + BCB on the
+    same bundle). '''
     node = SecNode(node_id, include_chain=prof.get('include_chain', True))
-    for item in [prof] + ([extra] if extra else []):
+    for item in [prof] + _as_list(extra):
         if 'pki' in item:
             node.add_pki(load_pki(item['pki'], node_id), signer=True)
             node.add_policy(item['sec'], b'sign', tgt_types)
@@ -409,9 +416,9 @@ def make_receiver(prof, node_id=DST_ID, wrong_key=False, accept=None, src_id=SRC
     (symmetric) / an unrelated CA (certificates). ``accept`` = config accept_after_verify (default: True for
     confidentiality profiles, False otherwise). '''
     if accept is None:
-        accept = (prof['sec'] == 'bcb') or bool(extra and extra['sec'] == 'bcb')
+        accept = any(item['sec'] == 'bcb' for item in [prof] + _as_list(extra))
     node = SecNode(node_id, accept_after_verify=accept)
-    for item in [prof] + ([extra] if extra else []):
+    for item in [prof] + _as_list(extra):
         if 'pki' in item:
             pki = load_pki(item['pki'], src_id, 'other' if wrong_key else 'own')
             node.add_pki(pki, signer=False)
@@ -1172,12 +1179,18 @@ def coq_scope(scope):
 _WORKER = {}
 
 
+def receiver_from_spec(spec):
+    ''' spec = dict(profile=name, extra=name | [names] | None, accept=None|bool, wrong_key=bool) '''
+    extra = spec.get('extra')
+    names = [] if not extra else (list(extra) if isinstance(extra, (list, tuple)) else [extra])
+    return make_receiver(PROFILES[spec['profile']], wrong_key=bool(spec.get('wrong_key')), accept=spec.get('accept'),
+                         extra=[PROFILES[name] for name in names])
+
+
 def _worker_receiver(spec):
     key = json.dumps(spec, sort_keys=True)
     if key not in _WORKER:
-        prof = PROFILES[spec['profile']]
-        extra = PROFILES[spec['extra']] if spec.get('extra') else None
-        _WORKER[key] = make_receiver(prof, wrong_key=spec.get('wrong_key', False), accept=spec.get('accept'), extra=extra)
+        _WORKER[key] = receiver_from_spec(spec)
     return _WORKER[key]
 
 
